@@ -685,7 +685,7 @@ pub fn supervisor_main(check: &dyn Check, tier: Tier, seed: u64) -> i32 {
         "seed": seed,
         "level": check.level(),
         "coverage": {
-            "evaluations": total.evaluations,
+            "evaluations": total.evaluations.max(crashes.len() as u64),
             "distinct_nontrivial": total.nontrivial,
             "rule": check.rule(),
             "samples": samples,
@@ -695,7 +695,7 @@ pub fn supervisor_main(check: &dyn Check, tier: Tier, seed: u64) -> i32 {
             "programs": total.units,
             "disagreements_checked": n_viol + known_hits.values().sum::<u64>(),
             "skipped_outside_quantifier": total.skipped,
-            "exhaustive": check.exhaustive(tier) && !total.capped,
+            "exhaustive": check.exhaustive(tier) && !total.capped && crashes.is_empty(),
             "bounds": check.bounds(tier),
             "counters": total.counters,
             "known_findings_matched": known_hits,
@@ -705,8 +705,11 @@ pub fn supervisor_main(check: &dyn Check, tier: Tier, seed: u64) -> i32 {
         "wall_s": (wall * 100.0).round() / 100.0,
         "violations": n_viol,
     });
-    let _ = std::fs::create_dir_all(format!("{}/evidence", root()));
-    let ev_path = format!("{}/evidence/{}.json", root(), id);
+    // BPAFMC_EVIDENCE redirects the evidence of runs against a modified repository (seeded
+    // changes) so that the committed files always describe the unchanged tree
+    let ev_dir = std::env::var("BPAFMC_EVIDENCE").unwrap_or_else(|_| format!("{}/evidence", root()));
+    let _ = std::fs::create_dir_all(&ev_dir);
+    let ev_path = format!("{}/{}.json", ev_dir, id);
     if let Err(e) = std::fs::write(&ev_path, serde_json::to_string_pretty(&evidence).unwrap()) {
         eprintln!("machinery failure: cannot write evidence: {}", e);
         return 2;
